@@ -29,8 +29,12 @@ ASSUMPTIONS = [
     "setup nodes of the shared DAG are run before sharing; one executor per thread (documented restrictions)",
     "interleavings are owned at describing-statement / call granularity; bytecode-level races only through the stress family",
 ]
-BUDGET = {"quick": {"shards": 4, "seconds": 40}, "thorough": {"shards": 16, "seconds": 420}}
+BUDGET = {"quick": {"shards": 8, "seconds": 40}, "thorough": {"shards": 16, "seconds": 420}}
 STEP_WAIT = 0.25
+
+
+class UserBug(Exception):
+    """An error in the user's describing function (the build must fail cleanly and leave no trace)."""
 
 
 class Worker(threading.Thread):
@@ -78,9 +82,11 @@ class Worker(threading.Thread):
                 elif op["op"] == "build":
                     k = op.get("pause")
 
-                    def on_stmt(j: int, k: Any = k) -> None:
+                    def on_stmt(j: int, k: Any = k, boom: Any = op.get("raise_at")) -> None:
                         if k is not None and j == k:
                             self.stop_point(True)
+                        if boom is not None and j == boom:
+                            raise UserBug(f"the describing function raises at statement {j}")
 
                     b = prog.build(op["prog"], mc=2, on_stmt=on_stmt)
                     r["dump"] = dump(b.dag)
@@ -155,7 +161,7 @@ def _script(case: Dict[str, Any], res: CaseResult) -> None:
         alone: Dict[str, Any] = {}
         for ti, ops in enumerate(case["threads"]):
             for oi, op in enumerate(ops):
-                if op["op"] == "build":
+                if op["op"] == "build" and op.get("raise_at") is None:
                     alone[f"{ti}.{oi}"] = dump(prog.build(op["prog"], mc=2).dag)
             if case.get("private"):
                 # the same reconfigurations applied in the same order to a DAG nobody interferes with
@@ -235,6 +241,11 @@ def _script(case: Dict[str, Any], res: CaseResult) -> None:
                         if "exc" in r or prog.foreign_objects(r.get("value")) or r.get("value") != want:
                             res.viol("outside-call", f"a decorated function called outside any DAG gave {r.get('value', r.get('exc'))!r}, plain call gives {want!r}" + tag)
                 else:
+                    if op.get("raise_at") is not None:
+                        # a describing function with a bug: the build fails with the user's own exception and that is all
+                        if not isinstance(r.get("exc"), UserBug):
+                            res.viol("failing-build", f"a describing function that raises gave {r.get('exc', r.get('value'))!r} instead of its own exception" + tag)
+                        continue
                     if "exc" in r:
                         res.viol("build-raised", f"building raised {type(r['exc']).__name__}: {str(r['exc'])[:200]}" + tag)
                         continue
@@ -249,6 +260,8 @@ def _script(case: Dict[str, Any], res: CaseResult) -> None:
         res.evals = sum(len(o) for o in case["threads"])
         res.nontrivial = during_pause > 0
         res.cls("script", f"threads-{len(workers)}")
+        if any(op.get("raise_at") is not None for ops in case["threads"] for op in ops):
+            res.cls("failing-build")
         if during_pause:
             res.cls("op-during-foreign-description")
         res.note = {"ops_during_foreign_description": during_pause}
@@ -334,7 +347,12 @@ def cases(draw: Any, tier: str) -> Dict[str, Any]:
                                        dep_kinds=("pos", "kw"), name=f"B{nb}", reuse=True))
                 nb += 1
                 pause = draw(st.one_of(st.none(), st.integers(0, len(P["body"]) - 1))) if not (t == 0 and not ops) else draw(st.integers(0, len(P["body"]) - 1))
-                ops.append({"op": "build", "prog": P, "pause": pause, "args": []})
+                op_b: Dict[str, Any] = {"op": "build", "prog": P, "pause": pause, "args": []}
+                if draw(st.sampled_from([True] + [False] * 5)):
+                    # the describing function raises (at or after the pause point): the lock / build state must be
+                    # released so that every later operation of every thread behaves as usual
+                    op_b["raise_at"] = draw(st.integers(pause if pause is not None else 0, len(P["body"]) - 1))
+                ops.append(op_b)
         threads.append(ops)
     total = sum(len(o) + sum(1 for x in o if x["op"] == "build" and x.get("pause") is not None) for o in threads)
     order = [0] + draw(st.lists(st.integers(0, nthreads - 1), min_size=total, max_size=total + 3))
